@@ -23,7 +23,8 @@ REQUIRED_THEOREMS = [
     'C15_predictive_entries', 'C15_predictive_law', 'C15_predictive_law_gaussian',
     'C15_predictive_law_multiplicative', 'C15_predictive_law_lognormal', 'C15_population_law',
     'C15_population_law_gaussian', 'C15_population_law_lognormal', 'C15_population_two_stage',
-    'C15_posterior_joint', 'C15_posterior_kept_draws', 'C15_posterior_joint_counterexample', 'C15_pam_weights',
+    'C15_posterior_joint', 'C15_posterior_kept_draws', 'C15_posterior_joint_counterexample', 'C15_history_independent',
+    'C15_history_cache_counterexample', 'C15_pam_weights',
     'C15_table_labels', 'C15_table_labels_pam', 'C15_times_ascending', 'C15_nids', 'C15_nids_counterexample']
 RULE = ('PredictiveModel, PopulationPredictiveModel (elementary / covariate-wrapped / composed population models, '
         'centred and non-centred), Prior-, Posterior- and PAM predictive models over individual- and '
@@ -31,7 +32,9 @@ RULE = ('PredictiveModel, PopulationPredictiveModel (elementary / covariate-wrap
         'time-dependent closed-form outputs; unsorted time vectors with ties; posterior datasets with 1-3 chains, '
         '2-4 draws, 1-3 individuals, NaN-padded draws, population-level variables, transposed and mixed dimension '
         'orders; sample sizes equal to and different from the stored n_ids; dosing regimens and covariates; '
-        'non-trivial = >= 2 outputs or samples; distinct = distinct (class, structure, sizes)')
+        'sequences of 2-3 calls on one PosteriorPredictiveModel / PAMPredictiveModel object for different individuals, '
+        'sample sizes, time vectors and seeds, each checked completely, and a later call on every other predictive object '
+        'compared with a freshly built one; non-trivial = >= 2 outputs or samples; distinct = distinct (class, structure, sizes)')
 ASSUMPTIONS = [
     'primitive samplers are ideal (as in C16); the laws of the transformations are proved for a standard normal '
     'variate (Mathlib gaussianReal); truncated-Gaussian and heterogeneous sub-models enter through C06 / the '
@@ -145,6 +148,17 @@ def averaged_dose_rows(ctx, tag, avg_model, doses, times, include, inp):
 
 
 REGIMEN = dict(dose=2.0, start=1.0, duration=0.5, period=2.0, num=3)
+
+
+def history_independent(ctx, tag, used_obj, fresh_obj, call, outputs, inp, args, cov_names=()):
+    """the object was sampled before (other parameters / times / sample sizes / seeds): a further call must return
+    what a freshly built object returns for the same arguments"""
+    K.set_world(WORLD)
+    a = canon_rows(call(used_obj), outputs, cov_names)
+    K.set_world(WORLD)
+    b = canon_rows(call(fresh_obj), outputs, cov_names)
+    ok = all(rows_close(x, y) for x, y in zip(a, b))
+    ctx.spec(tag, ok, dict(inp, later_call=args), {'used_object': a[0][:3], 'fresh_object': b[0][:3]})
 
 
 class Recorder:
@@ -337,6 +351,16 @@ def case_predictive(ctx, chi, rng, k):
     ctx.agree('C15.dose_rows/PredictiveModel', doses, sorted(want), inp)
     ctx.spec('C15.table_labels/PredictiveModel.dose_rows',
              rows_close(doses, sorted(want)), inp, {'doses': doses[:4], 'want': want[:4]})
+    # a later call on the same object
+    fresh, _, _, _ = build(chi, spec, dosed=dosed)
+    if dosed:
+        fresh.set_dosing_regimen(**regimen)
+    a2 = {'parameters': [float(x) for x in np.asarray(params) * rng.uniform(0.8, 1.2, len(params))],
+          'times': gen_times(rng), 'n': int(rng.integers(1, 4)), 'seed': int(rng.integers(1 << 31)),
+          'include_regimen': bool(rng.random() < 0.6)}
+    history_independent(ctx, 'C15.history_independent/PredictiveModel', pm, fresh,
+                        lambda o: o.sample(a2['parameters'], a2['times'], n_samples=a2['n'], seed=a2['seed'],
+                                           include_regimen=a2['include_regimen']), outputs, inp, a2)
 
 
 # ----------------------------------------------------------------------------------------
@@ -427,6 +451,18 @@ def case_population(ctx, chi, rng, k):
             want.append((i,) + regrows[j])
     ctx.agree('C15.dose_rows/PopulationPredictiveModel', doses, sorted(want), inp)
     ctx.spec('C15.table_labels/PopulationPredictiveModel.dose_rows', rows_close(doses, sorted(want)), inp)
+    # a later call on the same object (another sample size, other times)
+    fresh, _, _, fpop = build(chi, spec, dosed=dosed)
+    fpop.set_n_ids(stored)
+    if dosed:
+        fresh.set_dosing_regimen(dose=2.0, start=1.0, duration=0.5, period=2.0, num=3)
+    n2 = int(rng.integers(1, 5))
+    a2 = {'times': gen_times(rng), 'n': n2, 'seed': int(rng.integers(1 << 31)),
+          'cov': c16.pop_covariates(rng, spec['pop'], n2), 'include_regimen': bool(rng.random() < 0.5)}
+    history_independent(ctx, 'C15.history_independent/PopulationPredictiveModel', ppm, fresh,
+                        lambda o: o.sample(spec['theta'], a2['times'], n_samples=a2['n'], seed=a2['seed'],
+                                           covariates=a2['cov'], include_regimen=a2['include_regimen']),
+                        outputs, inp, a2, cov_names)
 
 
 def case_population_broadcast_covariates(ctx, chi, rng, k):
@@ -524,6 +560,16 @@ def case_prior(ctx, chi, rng, k):
     ctx.spec('C15.prior_draws', core.close([rows[u] for u in sorted(rows)], direct[:len(rows)]), inp)
     ctx.agree('C15.table/PriorPredictiveModel', meas, preds[0], inp)
     ctx.spec('C15.prior_predictive_law', rows_close(meas, preds[1]), inp)
+    # a later call on the same object
+    fmodel, _, _, _ = build(chi, spec, dosed=dosed)
+    fresh = chi.PriorPredictiveModel(fmodel, prior)
+    if dosed:
+        fresh.set_dosing_regimen(**REGIMEN)
+    a2 = {'times': gen_times(rng), 'n': int(rng.integers(1, 4)), 'seed': int(rng.integers(1 << 30)),
+          'include_regimen': bool(rng.random() < 0.6)}
+    history_independent(ctx, 'C15.history_independent/PriorPredictiveModel', prm, fresh,
+                        lambda o: o.sample(a2['times'], n_samples=a2['n'], seed=a2['seed'],
+                                           include_regimen=a2['include_regimen']), outputs, inp, a2)
 
 
 # ----------------------------------------------------------------------------------------
@@ -594,69 +640,91 @@ def case_posterior(ctx, chi, rng, k, layout=None):
     ppm = chi.PosteriorPredictiveModel(model, ds, param_map=param_map or None)
     if dosed:
         ppm.set_dosing_regimen(**REGIMEN)
-    individual = None if ids is None or rng.random() < 0.3 else ids[int(rng.integers(len(ids)))]
-    ind_idx = 0 if individual is None else ids.index(individual)
-    s = int(rng.integers(1 << 31))
-    inp = {'case': k, 'class': 'PosteriorPredictiveModel', 'spec': spec, 'times': times, 'n': n, 'seed': s,
-           'chains': n_chains, 'draws': n_draws, 'pad': pad, 'ids': ids, 'individual': individual, 'layout': layout,
-           'param_map': param_map, 'dosed': dosed, 'include_regimen': include}
-    ctx.case('PosteriorPredictiveModel/%s/%s' % (spec['type'], layout),
-             nontrivial='Posterior/%s/%s/%dx%d/%s' % (spec['type'], layout, n_chains, n_draws, pad), sample=inp)
-    K.set_world(WORLD)
-    pm.seen = []
-    df = ppm.sample(times, n_samples=n, individual=individual, seed=s, include_regimen=include)
     outputs = model.get_output_names()
-    meas, _, doses = canon_rows(df, outputs)
-    ts = model_sorted_times(ctx, times)
-    label_spec(ctx, 'C15.table_labels/PosteriorPredictiveModel', meas, n, outputs, times, inp, df)
-    averaged_dose_rows(ctx, 'C15.table_labels/PosteriorPredictiveModel.dose_rows', ppm, doses, times, include, inp)
-    # the parameter vectors handed to the wrapped model
-    if spec['type'] == 'indiv':
-        drawn = [list(v) for v in pm.seen]
-    else:
-        drawn = None
-    jr = joint_rows(ds, names, ids, individual if individual is not None else (ids[0] if ids else None))
-    bounds0 = {'ids': spec['pop']['n_ids']} if spec['type'] == 'pop' else {}
-    m = K.model_run(ctx, AS_IS, ['posteriorPredictive', K.spec_wire(spec), len(times), n], s, WORLD)
+    base_inp = {'case': k, 'class': 'PosteriorPredictiveModel', 'spec': spec, 'chains': n_chains, 'draws': n_draws,
+                'pad': pad, 'ids': ids, 'layout': layout, 'param_map': param_map, 'dosed': dosed}
+    ctx.case('PosteriorPredictiveModel/%s/%s' % (spec['type'], layout),
+             nontrivial='Posterior/%s/%s/%dx%d/%s' % (spec['type'], layout, n_chains, n_draws, pad), sample=base_inp)
 
-    def attempt(wire):
-        """the model of the selection code on this layout of the variables"""
-        ok, cols, lay, kept = ctx.model('C15.posterior', wire, ind_idx)
-        if not ok:
-            return {'ok': False}
-        n_rows = len(cols[0])
-        matrix = [[cols[q][r_] for q in range(len(names))] for r_ in range(n_rows)]
-        rp = K.Replay(WORLD, s, dict(bounds0, rows=n_rows)).run(m.calls)
-        unit_params, row_call = {}, {}
-        for c in m.cells:
-            idx = int(rp.value(c['par'][0]))
-            unit_params[c['unit']] = matrix[idx]
-            row_call[c['unit']] = c['par'][0][1]
-        preds = []
-        for py in (False, True):
-            ent = inner_predict(ctx, spec, mech, ts, m.cells, rp, n, unit_params,
-                                lambda u: ['gen', ['S', s], row_call[u] + 1], WORLD, python=py)
-            preds.append(None if ent is None else table_from_entries(ctx, 'averaged', outputs, ts, n, ent))
-        return {'ok': True, 'params': unit_params, 'preds': preds}
+    def one_call(individual, times, n, s, include, history):
+        """one call of `sample` on the (same) object, checked completely: a result may depend on the arguments of
+        this call only, not on what the object was asked before"""
+        ind_idx = 0 if individual is None else ids.index(individual)
+        inp = dict(base_inp, times=times, n=n, seed=s, individual=individual, include_regimen=include,
+                   earlier_calls_on_this_object=history)
+        K.set_world(WORLD)
+        pm.seen = []
+        df = ppm.sample(times, n_samples=n, individual=individual, seed=s, include_regimen=include)
+        outputs = model.get_output_names()
+        meas, _, doses = canon_rows(df, outputs)
+        ts = model_sorted_times(ctx, times)
+        label_spec(ctx, 'C15.table_labels/PosteriorPredictiveModel', meas, n, outputs, times, inp, df)
+        averaged_dose_rows(ctx, 'C15.table_labels/PosteriorPredictiveModel.dose_rows', ppm, doses, times, include, inp)
+        # the parameter vectors handed to the wrapped model
+        if spec['type'] == 'indiv':
+            drawn = [list(v) for v in pm.seen]
+        else:
+            drawn = None
+        jr = joint_rows(ds, names, ids, individual if individual is not None else (ids[0] if ids else None))
+        bounds0 = {'ids': spec['pop']['n_ids']} if spec['type'] == 'pop' else {}
+        m = K.model_run(ctx, AS_IS, ['posteriorPredictive', K.spec_wire(spec), len(times), n], s, WORLD)
 
-    # every variable is transposed to (chain, draw, ...) before it is flattened: the model is given the
-    # variables with their own dimension orders and does the same
-    res = attempt(posterior_wire(ds, names, ids))
-    ctx.agree('C15.posterior.accepts', True, res['ok'], inp)
-    if not res['ok']:
-        return
-    unit_params = res['params']
-    if drawn is not None:
-        ctx.agree('C15.posterior.drawn_rows', drawn, [unit_params[u] for u in sorted(unit_params)], inp)
-        is_joint = all(any(core.close(v, r) for r in jr) for v in drawn)
-    else:
-        is_joint = all(any(core.close(unit_params[u], r) for r in jr) for u in unit_params)
-    ctx.spec('C15.posterior_joint/%s' % ('mixed_dim_order' if layout == 'mixed' else 'consistent_dim_order'),
-             is_joint, inp, {'drawn': (drawn or [])[:2]})
-    if res['preds'][0] is not None:
-        ctx.agree('C15.table/PosteriorPredictiveModel', meas, res['preds'][0], inp)
-    if res['preds'][1] is not None:
-        ctx.spec('C15.posterior_predictive_law', rows_close(meas, res['preds'][1]), inp)
+        def attempt(wire):
+            """the model of the selection code on this layout of the variables"""
+            ok, cols, lay, kept = ctx.model('C15.posterior', wire, ind_idx)
+            if not ok:
+                return {'ok': False}
+            n_rows = len(cols[0])
+            matrix = [[cols[q][r_] for q in range(len(names))] for r_ in range(n_rows)]
+            rp = K.Replay(WORLD, s, dict(bounds0, rows=n_rows)).run(m.calls)
+            unit_params, row_call = {}, {}
+            for c in m.cells:
+                idx = int(rp.value(c['par'][0]))
+                unit_params[c['unit']] = matrix[idx]
+                row_call[c['unit']] = c['par'][0][1]
+            preds = []
+            for py in (False, True):
+                ent = inner_predict(ctx, spec, mech, ts, m.cells, rp, n, unit_params,
+                                    lambda u: ['gen', ['S', s], row_call[u] + 1], WORLD, python=py)
+                preds.append(None if ent is None else table_from_entries(ctx, 'averaged', outputs, ts, n, ent))
+            return {'ok': True, 'params': unit_params, 'preds': preds}
+
+        # every variable is transposed to (chain, draw, ...) before it is flattened: the model is given the
+        # variables with their own dimension orders and does the same
+        res = attempt(posterior_wire(ds, names, ids))
+        ctx.agree('C15.posterior.accepts', True, res['ok'], inp)
+        if not res['ok']:
+            return
+        unit_params = res['params']
+        if drawn is not None:
+            ctx.agree('C15.posterior.drawn_rows', drawn, [unit_params[u] for u in sorted(unit_params)], inp)
+            is_joint = all(any(core.close(v, r) for r in jr) for v in drawn)
+        else:
+            is_joint = all(any(core.close(unit_params[u], r) for r in jr) for u in unit_params)
+        ctx.spec('C15.posterior_joint/%s' % ('mixed_dim_order' if layout == 'mixed' else 'consistent_dim_order'),
+                 is_joint, inp, {'drawn': (drawn or [])[:2]})
+        if res['preds'][0] is not None:
+            ctx.agree('C15.table/PosteriorPredictiveModel', meas, res['preds'][0], inp)
+        if res['preds'][1] is not None:
+            ctx.spec('C15.posterior_predictive_law', rows_close(meas, res['preds'][1]), inp)
+
+
+
+    # a sequence of calls on one object: other individuals, sample sizes, time vectors, seeds
+    individual = None if ids is None or rng.random() < 0.3 else ids[int(rng.integers(len(ids)))]
+    history = []
+    for call_no in range(1 + int(rng.integers(1, 3))):
+        s = int(rng.integers(1 << 31))
+        one_call(individual, times, n, s, include, list(history))
+        history.append({'individual': individual, 'n': n, 'times': times, 'seed': s})
+        if ids is not None and len(ids) > 1:
+            others = [i_ for i_ in ids if i_ != (individual if individual is not None else ids[0])]
+            individual = others[int(rng.integers(len(others)))] if rng.random() < 0.8 else None
+        if rng.random() < 0.5:
+            n = int(rng.integers(1, 5))
+        if rng.random() < 0.5:
+            times = gen_times(rng)
+        include = bool(rng.random() < 0.6)
 
 
 # ----------------------------------------------------------------------------------------
@@ -673,60 +741,78 @@ def case_pam(ctx, chi, rng, k):
     n_chains, n_draws = int(rng.integers(1, 3)), int(rng.integers(2, 4))
     posts, dss = [], []
     for mdl in range(n_models):
-        jit = rng.uniform(0.9, 1.1, size=(len(names), n_chains, n_draws))
+        jit = rng.uniform(0.9, 1.1, size=(len(names), n_chains, n_draws, 2))
         ds = K.make_posterior(names, n_chains, n_draws, ['a', 'b'],
                               lambda p, c, d, i, mdl=mdl, jit=jit: float((base[p] + (10.0 * mdl if p == 0 else 0.0))
-                                                                        * jit[p, c, d]),
+                                                                        * jit[p, c, d, i]),
                               pop_level=[nm for nm in names if 'Sigma' in nm])
         dss.append(ds)
         posts.append(chi.PosteriorPredictiveModel(model, ds))
     weights = [float(x) for x in rng.uniform(0.2, 2.0, n_models)]
     pam = chi.PAMPredictiveModel(posts, weights)
-    s = int(rng.integers(1 << 31))
-    world = ('LS', int(rng.integers(1 << 30)), 0)
-    inp = {'case': k, 'class': 'PAMPredictiveModel', 'spec': spec, 'times': times, 'n': n, 'seed': s,
-           'weights': weights, 'world': list(world)}
-    ctx.case('PAMPredictiveModel/%d-models' % n_models, nontrivial='PAM/%d/%d' % (n_models, n), sample=inp)
-    K.set_world(world)
-    pm.seen = []
-    df = pam.sample(times, n_samples=n, individual='a', seed=s)
     outputs = model.get_output_names()
-    meas, _, _ = canon_rows(df, outputs)
-    ts = model_sorted_times(ctx, times)
-    label_spec(ctx, 'C15.table_labels/PAMPredictiveModel', meas, n, outputs, times, inp, df)
-    # which model every ID came from: psi0 of model m is near base + 10 m
-    which = [int(round((v[0] / base[0] - 1.0) * base[0] / 10.0)) for v in pm.seen]
-    which = [min(max(w, 0), n_models - 1) for w in which]
-    # allocation: replay of the weighted choice on the stream the code uses
-    p = np.asarray(weights) / np.sum(weights)
-    g = np.random.default_rng(s)
-    draws_rng = [int(x) for x in g.choice(np.arange(n_models), p=p, size=n)]
-    counts_obs = [which.count(mdl) for mdl in range(n_models)]
-    cr, idm_r, wn = ctx.model('C15.pam', n_models, draws_rng, weights)
-    ctx.agree('C15.pam.allocation', which, idm_r, inp)
-    ctx.agree('C15.pam.weights', list(pam.get_weights()), wn, inp)
-    # a model chosen with the stated weights, by the seeded generator: the ID -> model list is the sorted list
-    # of the weighted draws of default_rng(seed)
-    ctx.spec('C15.pam_weights/allocation', which == sorted(draws_rng), inp,
-             {'observed': which, 'weighted_draws': draws_rng})
-    ctx.spec('C15.pam_weights/normalised', core.close(list(pam.get_weights()), list(p)), inp)
-    # values: model with the observed allocation
-    entry = ['pam', [[K.spec_wire(spec), int(c)] for c in counts_obs], len(times)]
-    m = K.model_run(ctx, AS_IS, entry, s, world)
-    rp = K.Replay(world, s, {'rows': n_chains * n_draws, 'pam_p': p}).run(m.calls)
-    unit_params = {}
-    for c in m.cells:
-        mdl = which[c['unit']]
-        ok, cols, _, _ = ctx.model('C15.posterior', posterior_wire(dss[mdl], names, ['a', 'b']), 0)
-        idx = int(rp.value(c['par'][0]))
-        unit_params[c['unit']] = [cols[q][idx] for q in range(len(names))]
-    ent = predict_entries(ctx, spec, mech, ts, m.cells, rp, lambda u: unit_params[u])
-    pred = table_from_entries(ctx, 'pam', outputs, ts, n, ent, counts=counts_obs)
-    ctx.agree('C15.table/PAMPredictiveModel', meas, pred, inp)
-    # every ID's parameter vector is one joint row of the posterior of its model
-    jr = [joint_rows(ds, names, ['a', 'b'], 'a') for ds in dss]
-    ctx.spec('C15.posterior_joint/pam', all(any(core.close(list(v), r) for r in jr[w])
-                                            for v, w in zip(pm.seen, which)), inp)
+    ctx.case('PAMPredictiveModel/%d-models' % n_models, nontrivial='PAM/%d/%d' % (n_models, n),
+             sample={'case': k, 'spec': spec, 'weights': weights})
+
+    def one_call(individual, times, n, s, world, history):
+        """one call on the (same) averaged model and the same posterior predictive models, checked completely"""
+        ind_idx = 0 if individual is None else ['a', 'b'].index(individual)
+        inp = {'case': k, 'class': 'PAMPredictiveModel', 'spec': spec, 'times': times, 'n': n, 'seed': s,
+               'weights': weights, 'world': list(world), 'individual': individual,
+               'earlier_calls_on_this_object': history}
+        K.set_world(world)
+        pm.seen = []
+        df = pam.sample(times, n_samples=n, individual=individual, seed=s)
+        outputs = model.get_output_names()
+        meas, _, _ = canon_rows(df, outputs)
+        ts = model_sorted_times(ctx, times)
+        label_spec(ctx, 'C15.table_labels/PAMPredictiveModel', meas, n, outputs, times, inp, df)
+        # which model every ID came from: psi0 of model m is near base + 10 m
+        which = [int(round((v[0] / base[0] - 1.0) * base[0] / 10.0)) for v in pm.seen]
+        which = [min(max(w, 0), n_models - 1) for w in which]
+        # allocation: replay of the weighted choice on the stream the code uses
+        p = np.asarray(weights) / np.sum(weights)
+        g = np.random.default_rng(s)
+        draws_rng = [int(x) for x in g.choice(np.arange(n_models), p=p, size=n)]
+        counts_obs = [which.count(mdl) for mdl in range(n_models)]
+        cr, idm_r, wn = ctx.model('C15.pam', n_models, draws_rng, weights)
+        ctx.agree('C15.pam.allocation', which, idm_r, inp)
+        ctx.agree('C15.pam.weights', list(pam.get_weights()), wn, inp)
+        # a model chosen with the stated weights, by the seeded generator: the ID -> model list is the sorted list
+        # of the weighted draws of default_rng(seed)
+        ctx.spec('C15.pam_weights/allocation', which == sorted(draws_rng), inp,
+                 {'observed': which, 'weighted_draws': draws_rng})
+        ctx.spec('C15.pam_weights/normalised', core.close(list(pam.get_weights()), list(p)), inp)
+        # values: model with the observed allocation
+        entry = ['pam', [[K.spec_wire(spec), int(c)] for c in counts_obs], len(times)]
+        m = K.model_run(ctx, AS_IS, entry, s, world)
+        rp = K.Replay(world, s, {'rows': n_chains * n_draws, 'pam_p': p}).run(m.calls)
+        unit_params = {}
+        for c in m.cells:
+            mdl = which[c['unit']]
+            ok, cols, _, _ = ctx.model('C15.posterior', posterior_wire(dss[mdl], names, ['a', 'b']), ind_idx)
+            idx = int(rp.value(c['par'][0]))
+            unit_params[c['unit']] = [cols[q][idx] for q in range(len(names))]
+        ent = predict_entries(ctx, spec, mech, ts, m.cells, rp, lambda u: unit_params[u])
+        pred = table_from_entries(ctx, 'pam', outputs, ts, n, ent, counts=counts_obs)
+        ctx.agree('C15.table/PAMPredictiveModel', meas, pred, inp)
+        # every ID's parameter vector is one joint row of the posterior of its model
+        jr = [joint_rows(ds, names, ['a', 'b'], individual or 'a') for ds in dss]
+        ctx.spec('C15.posterior_joint/pam', all(any(core.close(list(v), r) for r in jr[w])
+                                                for v, w in zip(pm.seen, which)), inp)
+
+    individual = [None, 'a', 'b'][int(rng.integers(3))]
+    history = []
+    for call_no in range(1 + int(rng.integers(1, 3))):
+        s = int(rng.integers(1 << 31))
+        world = ('LS', int(rng.integers(1 << 30)), 0)
+        one_call(individual, times, n, s, world, list(history))
+        history.append({'individual': individual, 'n': n, 'times': times, 'seed': s})
+        individual = 'b' if individual in (None, 'a') else [None, 'a'][int(rng.integers(2))]
+        if rng.random() < 0.5:
+            n = int(rng.integers(2, 8))
+        if rng.random() < 0.5:
+            times = gen_times(rng)
 
 
 # ----------------------------------------------------------------------------------------
@@ -806,7 +892,7 @@ def corpus(ctx, chi):
 def run(ctx):
     chi = core.import_chi()
     corpus(ctx, chi)
-    reps = 120 if ctx.tier == 'quick' else 3000
+    reps = 120 if ctx.tier == 'quick' else 1600
     k = 0
     for rep in range(reps):
         for case in CASES:
